@@ -12,6 +12,7 @@
 -/
 import JsonataModel.Model.Date
 import JsonataModel.Generated.Facts
+import JsonataModel.Lemmas.DateText
 
 namespace Jsonata.Props.C19
 open Jsonata Jsonata.Date
@@ -213,6 +214,112 @@ theorem parseTimeZone_examples :
     parseTimeZone "+0000".toList = some 0 ∧ parseTimeZone "-1400".toList = some (-50400) ∧
     parseTimeZone "0530".toList = none ∧ parseTimeZone "*0530".toList = none ∧ parseTimeZone "+05:30".toList = none ∧
     parseTimeZone "+0a30".toList = none := by decide
+
+/-! ### the text layer: rendering through the default picture and parsing back -/
+
+section TextLayer
+open Jsonata.DateText Jsonata.Digits
+
+
+theorem foldl_ok (ms : Int) (pics : List FmtNum.S) (s : FmtNum.S) :
+    pics.foldl (fun acc pic => match acc with | ParseOutcome.fail => parseWith s pic | r => r) (.ok ms) = .ok ms := by
+  induction pics with
+  | nil => rfl
+  | cons p ps ih => simpa [List.foldl] using ih
+
+/-- the fields of an instant as natural numbers in calendar and clock ranges -/
+theorem fields_nat (ms off : Int) (zone : FmtNum.S) (hy : 0 ≤ (fields ms off zone).year) :
+    ∃ y mo d h mi s ml : Nat, Fields (fields ms off zone) y mo d h mi s ml ∧
+      1 ≤ mo ∧ mo ≤ 12 ∧ 1 ≤ d ∧ d ≤ 31 ∧ h < 24 ∧ mi < 60 ∧ s < 60 ∧ ml < 1000 := by
+  have hc := clock_fields ms off zone
+  have hr : 1 ≤ (fields ms off zone).month ∧ (fields ms off zone).month ≤ 12 ∧ 1 ≤ (fields ms off zone).day ∧ (fields ms off zone).day ≤ 31 :=
+    civil_ranges ((ms + off * 1000) / 86400000)
+  simp only [] at hc
+  obtain ⟨c1, c2, c3, c4, c5, c6, c7, c8, _⟩ := hc
+  obtain ⟨r1, r2, r3, r4⟩ := hr
+  refine ⟨(fields ms off zone).year.toNat, (fields ms off zone).month.toNat, (fields ms off zone).day.toNat,
+    (fields ms off zone).hour.toNat, (fields ms off zone).minute.toNat, (fields ms off zone).second.toNat,
+    (fields ms off zone).milli.toNat, ⟨?_, ?_, ?_, ?_, ?_, ?_, ?_⟩, ?_⟩
+  · exact (Int.toNat_of_nonneg hy).symm
+  · exact (Int.toNat_of_nonneg (by omega)).symm
+  · exact (Int.toNat_of_nonneg (by omega)).symm
+  · exact (Int.toNat_of_nonneg c1).symm
+  · exact (Int.toNat_of_nonneg c3).symm
+  · exact (Int.toNat_of_nonneg c5).symm
+  · exact (Int.toNat_of_nonneg c7).symm
+  · omega
+
+/-- **The text layer inverts.**  Rendering any instant whose (local) year has four digits through
+    the default picture, in any whole-minute offset within ±25 h, and parsing the text back
+    yields the instant. -/
+theorem toMillis_formatTime_default (ms off : Int) (zone : FmtNum.S)
+    (hy1 : 1000 ≤ (fields ms off zone).year) (hy2 : (fields ms off zone).year ≤ 9999)
+    (h60 : off % 60 = 0) (hlo : -90000 < off) (hhi : off < 90000) :
+    ∃ s, formatTime (fields ms off zone) defaultPicture = some s ∧ toMillis s [] = .ok ms := by
+  obtain ⟨y, mo, d, h, mi, s, ml, F, hmo1, hmo2, hd1, hd2, hh, hmi, hs, hml⟩ := fields_nat ms off zone (by omega)
+  refine ⟨isoText y mo d h mi s ml off, ?_, ?_⟩
+  · have := format_default _ y mo d h mi s ml F hml
+    simpa [fields] using this
+  · have hp := parse_iso y mo d h mi s ml off (by have := F.year; omega) (by have := F.year; omega) hmo1 hmo2 (by omega) hh hmi hs hml h60 hlo hhi
+    have hv := civil_day_valid ((ms + off * 1000) / 86400000)
+    have hm := fields_to_millis ms off zone
+    have e1 : toMillis (isoText y mo d h mi s ml off) [] =
+        (defaultParsePictures.drop 1).foldl (fun acc pic => match acc with | ParseOutcome.fail => parseWith (isoText y mo d h mi s ml off) pic | r => r)
+          (parseWith (isoText y mo d h mi s ml off) pic1) := by rfl
+    have e2 : parseWith (isoText y mo d h mi s ml off) pic1 = .ok ms := by
+      rw [parseWith_pic1, hp]
+      have hv' : (fields ms off zone).day ≤ daysInMonth (fields ms off zone).year (fields ms off zone).month := hv
+      have hm' : (daysFromCivil (fields ms off zone).year (fields ms off zone).month (fields ms off zone).day * 86400 +
+          (fields ms off zone).hour * 3600 + (fields ms off zone).minute * 60 + (fields ms off zone).second - off) * 1000 +
+          (fields ms off zone).milli = ms := hm
+      rw [F.year, F.month, F.day] at hv'
+      rw [F.year, F.month, F.day, F.hour, F.minute, F.second, F.milli] at hm'
+      have hday : ¬ ((d : Int) < 1 ∨ (d : Int) > daysInMonth y mo) := by omega
+      have hday' : (decide ((d : Int) < 1) || decide ((d : Int) > daysInMonth y mo)) = false := by simpa using hday
+      simp only [parsedToMillis, hday', Bool.false_eq_true, if_false, hm']
+    rw [e1, e2, foldl_ok]
+
+/-- every offset `parseTimeZone` accepts is a whole number of minutes -/
+theorem parseTimeZone_minutes (tz : FmtNum.S) (off : Int) (h : parseTimeZone tz = some off) : off % 60 = 0 := by
+  unfold parseTimeZone at h
+  split at h
+  · exact absurd h (by simp)
+  · split at h
+    · simp only [] at h
+      split at h
+      · injection h with e
+        rw [← e]
+        rw [Int.mul_left_comm]; exact Int.mul_emod_right 60 _
+      · exact absurd h (by simp)
+    · exact absurd h (by simp)
+
+/-- **$toMillis inverts $fromMillis** (default picture): for every instant `ms`, in UTC or in any
+    offset the implementation accepts that lies within ±25 h, whose local year has four digits
+    (1000 … 9999), `$toMillis($fromMillis(ms, (), tz)) = ms`.  No sampling: every millisecond of
+    the nine thousand years, every such offset. -/
+theorem toMillis_fromMillis (ms off : Int) (tz : FmtNum.S)
+    (htz : (tz = [] ∧ off = 0) ∨ (tz ≠ [] ∧ parseTimeZone tz = some off))
+    (hlo : -90000 < off) (hhi : off < 90000)
+    (hy1 : 1000 ≤ (civilFromDays ((ms + off * 1000) / 86400000)).1)
+    (hy2 : (civilFromDays ((ms + off * 1000) / 86400000)).1 ≤ 9999) :
+    ∃ s, fromMillis ms [] tz = some s ∧ toMillis s [] = .ok ms := by
+  rcases htz with ⟨e1, e2⟩ | ⟨e1, e2⟩
+  · subst e1 e2
+    have := toMillis_formatTime_default ms 0 "UTC".toList hy1 hy2 (by decide) hlo hhi
+    simpa [fromMillis] using this
+  · have h60 := parseTimeZone_minutes tz off e2
+    have := toMillis_formatTime_default ms off tz hy1 hy2 h60 hlo hhi
+    have hne : tz.isEmpty = false := by cases tz <;> simp_all
+    simpa [fromMillis, hne, e2] using this
+
+/-- non-vacuity: a concrete instant and offset meet the premises, and the rendered text is ISO 8601 -/
+example : fromMillis 1521801216617 [] "+0530".toList = some "2018-03-23T16:03:36.617+05:30".toList ∧
+    parseTimeZone "+0530".toList = some 19800 ∧
+    (civilFromDays ((1521801216617 + 19800 * 1000) / 86400000)).1 = 2018 := by decide
+example : (match toMillis "2018-03-23T16:03:36.617+05:30".toList [] with | .ok ms => ms | _ => 0) = 1521801216617 := by decide
+
+
+end TextLayer
 
 /-! ### regenerated facts -/
 
